@@ -15,7 +15,7 @@ META = {
              'CPython embedding reference with equal positions; (iii) its structure equals the original sub-tree/sub-list (contexts normalised, docstrings compared modulo '
              're-indentation); (iv) on two further fresh parses of the same text: cut() returns the same source and structure as copy(), and what cut leaves equals what '
              'remove()/put_slice(None) leaves (source and dump); (v) conservation: COMMENT tokens and NAME/NUMBER/STRING leaf tokens of the original are exactly those of the '
-             'remainder plus the extracted piece. A cell is (node class or field, options class, check).'),
+             'remainder plus the extracted piece. A cell is (node class or field, options class, check). A deterministic table of 17 small multi-byte containers (trailing separators, separators on own / continuation lines) is run with every node and many slices in both tiers.'),
     'budget': {'quick': 45, 'thorough': 900},
     'floors': {'quick': {'copies_checked': 8000, 'cut_vs_copy_delete': 4000, 'conservation_checked': 4000, 'standalone_parsed': 5000},
                'thorough': {'copies_checked': 200000, 'cut_vs_copy_delete': 100000, 'conservation_checked': 100000, 'standalone_parsed': 120000}},
